@@ -111,7 +111,7 @@ double AD(int n,double z)
 int ADtest(int n, double *x, double *outputs)
 {
     int i;
-    double nan, t,z=0, prev=-1e-300;
+    double nan, t,z=0, prev=-1e-300, pval;
     static double zero = 0.0;
 
     /* nan value if not defined */
@@ -141,7 +141,11 @@ int ADtest(int n, double *x, double *outputs)
 
     /* Store outputs */
     outputs[0] = -n+z/n;
-    outputs[1] = 1.-AD(n, -n+z/n);
+    /* AD(n, z) approximates a probability to about 4 digits and leaves
+     * [0, 1] by that much for very small statistics (it is negative for an
+     * evenly spaced sample): keep the p-value in [0, 1] */
+    pval = 1.-AD(n, -n+z/n);
+    outputs[1] = pval<0. ? 0. : pval>1. ? 1. : pval;
 
     return 0;
  }
